@@ -21,8 +21,16 @@ def job_battery(job):
     for _ in range(rng.choice([0, 1, 2])):
         extra.append({"op": "add_node", "n": rng.choice(known + [max(known) + 2]), "a": rng.randint(0, 2)})
     known2 = sorted(set(known) | {c["n"] for c in extra})
-    lines, g, L, known2, grid = drivers.make_trace(directed, removal, list(calls) + extra, labeling=lab, rng=rng,
+    allcalls = list(calls) + extra
+    # a seeded share of the jobs queries the same object twice: after a prefix of its history and at the end
+    # (an answer may never depend on what an earlier query saw)
+    k = rng.randint(1, len(allcalls) - 1) if len(allcalls) >= 2 and rng.random() < 0.4 else len(allcalls)
+    lines, g, L, known2, grid = drivers.make_trace(directed, removal, allcalls[:k], labeling=lab, rng=rng,
                                                    known=known2, grid=grid, ret_obj=True)
+    if k < len(allcalls):
+        lines.append({"op": "battery", "fork": False, "res": "ok", "obs": core.observe(g, L, known2, grid),
+                      "q": battery.queries(g, L, known2, grid, rng=rng, nb_limit=4)})
+        drivers.extend_trace(lines, g, L, allcalls[k:], known2, grid, rng)
     # node attribute setters: every form, on nodes of the graph (the reference follows them)
     for _ in range(rng.choice([0, 1, 2, 3])):
         present = [n for n in known2 if g.has_node(L.node(n))]
